@@ -41,6 +41,11 @@ RfD == Div(F, k)
 RfV == Mul(Mul(I, W), RfD)
 RfA == Neg(Mul(Mul(W, W), RfD))
 
+\* full-matrix definition (no modal decoupling assumed): d = (K - W^2 M + i W B)^-1 F
+Mm == V("M") Bm == V("B") Km == V("K")
+MatD == <<"solve", Add(Sub(Km, Mul(Mul(W, W), Mm)), Mul(Mul(I, W), Bm)), F>>
+MatV == Mul(Mul(I, W), MatD)
+MatA == Neg(Mul(Mul(W, W), MatD))
 Quant == {"d", "v", "a"}
 IncrbStrings == SUBSET Quant
 IncrbInts == {0, 1, 2}
@@ -52,10 +57,15 @@ Layouts == {<<nrb, nel, nrf>> : nrb \in 0..1, nel \in 1..2, nrf \in 0..1}
 \*           add them back for the frequency domain)
 \*   damp    "mixed": one elastic equation over-damped, the other under-damped (real and complex eigenvalues side by side)
 \*   forder  position of the frequencies in the vector: ascending, 0 Hz last, shuffled - a column's answer does not depend on it
-Stress == {<<FALSE, "under", "asc">>, <<TRUE, "mixed", "asc">>, <<TRUE, "under", "zerolast">>, <<FALSE, "mixed", "shuffled">>,
-           <<TRUE, "mixed", "shuffled">>}
+\*   order   "interleaved": TWO rigid-body equations separated by an elastic one (index arrays instead of slices inside the solver)
+\*   gyro    a skew-symmetric part in the damping of a coupled system without rigid-body / rf equations: M, K stay symmetric, B does
+\*           not - the response is then defined by the full dynamic-stiffness solve (MatSol), not by modal equations
+Stress == {<<FALSE, "under", "asc", "contig", FALSE>>, <<TRUE, "mixed", "asc", "contig", FALSE>>, <<TRUE, "under", "zerolast", "contig", FALSE>>,
+           <<FALSE, "mixed", "shuffled", "contig", FALSE>>, <<TRUE, "mixed", "shuffled", "contig", FALSE>>,
+           <<FALSE, "under", "asc", "interleaved", FALSE>>, <<TRUE, "under", "shuffled", "interleaved", FALSE>>,
+           <<FALSE, "under", "asc", "contig", TRUE>>, <<FALSE, "under", "zerolast", "contig", TRUE>>}
 Cfgs == {[lay |-> l, incrb |-> ib, intform |-> it, rfdo |-> rd, solver |-> s, coupling |-> c, mform |-> mf, pre_eig |-> pe, cplxk |-> ck,
-          hgiven |-> st[1], damp |-> st[2], forder |-> st[3]] :
+          hgiven |-> st[1], damp |-> st[2], forder |-> st[3], order |-> st[4], gyro |-> st[5]] :
             l \in Layouts, ib \in IncrbStrings, it \in BOOLEAN, rd \in BOOLEAN, s \in {"SolveUnc", "FreqDirect"},
             c \in {"diag", "coupled"}, mf \in {"none", "vec", "mat"}, pe \in BOOLEAN, ck \in BOOLEAN, st \in Stress}
 Legal(c) ==
@@ -67,7 +77,11 @@ Legal(c) ==
   /\ (c.hgiven => c.solver = "SolveUnc")       \* FreqDirect has no time step
   /\ (c.damp = "mixed" => (c.lay[2] = 2 /\ ~c.cplxk))
   \* the stress combinations are explored on the options that matter for them (full rigid-body output kept or dropped)
-  /\ (<<c.hgiven, c.damp, c.forder>> # <<FALSE, "under", "asc">> => (c.incrb \in {{"d", "v", "a"}, {"a"}, {}} /\ ~c.intform /\ ~c.rfdo))
+  /\ (<<c.hgiven, c.damp, c.forder, c.order, c.gyro>> # <<FALSE, "under", "asc", "contig", FALSE>>
+         => (c.incrb \in {{"d", "v", "a"}, {"a"}, {}} /\ ~c.intform /\ ~c.rfdo))
+  \* interleaved: the layout <<1, nel, nrf>> is instantiated with a SECOND rigid-body equation placed after the first elastic one
+  /\ (c.order = "interleaved" => (c.lay[1] = 1 /\ ~c.pre_eig /\ ~c.cplxk))
+  /\ (c.gyro => (c.coupling = "coupled" /\ c.lay = <<0, 2, 0>> /\ c.mform = "mat" /\ ~c.pre_eig /\ ~c.cplxk /\ ~c.hgiven))
 
 \* zero pattern: TRUE = must be exactly zero
 ZeroAt(c, block, quant, zerohz) ==
@@ -89,6 +103,6 @@ ElNeverForcedZero == \A qu \in Quant, z \in BOOLEAN : ~ZeroAt(q, "el", qu, z)
 ExportCfg == Export => PrintT(<<"CFG", q, ZeroHzAllowed(q),
      [bl \in {"rb", "el", "rf"} |-> [qu \in Quant |-> <<ZeroAt(q, bl, qu, FALSE), ZeroAt(q, bl, qu, TRUE)>>]]>>)
 ExportTerms == (Export /\ q.incrb = {} /\ q.lay = <<0, 1, 0>> /\ ~q.rfdo /\ q.solver = "SolveUnc" /\ q.mform = "none" /\ ~q.intform /\ ~q.cplxk
-                /\ ~q.hgiven /\ q.damp = "under" /\ q.forder = "asc") =>
-   PrintT(<<"FTERMS", [el |-> <<ElD, ElV, ElA>>, rb |-> <<RbD, RbV, RbA>>, rf |-> <<RfD, RfV, RfA>>]>>)
+                /\ ~q.hgiven /\ q.damp = "under" /\ q.forder = "asc" /\ q.order = "contig" /\ ~q.gyro) =>
+   PrintT(<<"FTERMS", [el |-> <<ElD, ElV, ElA>>, rb |-> <<RbD, RbV, RbA>>, rf |-> <<RfD, RfV, RfA>>, mat |-> <<MatD, MatV, MatA>>]>>)
 =============================================================================
